@@ -56,6 +56,7 @@ func c20R6(c *Ctx, rule string) {
 		}
 		return best
 	}
+	altParams := map[*ssa.Parameter]bool{}
 	isAltElem := func(v ssa.Value) bool {
 		ld, ok := v.(*ssa.UnOp)
 		if !ok || ld.Op != token.MUL {
@@ -65,8 +66,14 @@ func c20R6(c *Ctx, rule string) {
 		if !ok {
 			return false
 		}
-		fv, _ := loadedField(ia.X)
-		return fv == altF
+		if fv, _ := loadedField(ia.X); fv == altF {
+			return true
+		}
+		// inside a filter helper: elements of the parameter that received the configured list
+		if prm, isP := ia.X.(*ssa.Parameter); isP && altParams[prm] {
+			return true
+		}
+		return false
 	}
 	nonEmptyGuard := func(elem ssa.Value, at ssa.Instruction) bool {
 		about := func(v ssa.Value) bool { // v is elem, or f(elem)
@@ -122,8 +129,25 @@ func c20R6(c *Ctx, rule string) {
 			}
 		case *ssa.Slice:
 			walk(x.X, x)
+		case *ssa.Parameter:
+			if altParams[x] {
+				bad, badAt = "the configured AlternativeNames slice itself (as received by a helper) reaches MockDomainList unfiltered", at
+			}
 		case *ssa.Call:
 			if calleeName(&x.Call) != "builtin.append" {
+				// a filter helper: follow its results, remembering which parameter carries the configured list
+				if hg := x.Call.StaticCallee(); hg != nil && p.InRepo(hg) && len(hg.Blocks) > 0 && len(x.Call.Args) == len(hg.Params) {
+					for k, a := range x.Call.Args {
+						if fv, _ := loadedField(a); fv == altF && forward(altF, x) == nil {
+							altParams[hg.Params[k]] = true
+						}
+					}
+					for _, r := range returnsOf(hg) {
+						if len(r.Results) > 0 {
+							walk(r.Results[0], r)
+						}
+					}
+				}
 				return
 			}
 			walk(x.Call.Args[0], x)
